@@ -1,3 +1,4 @@
+import Txtpp.Lemmas.FreeWorld
 import Txtpp.Lemmas.Term
 import Txtpp.Lemmas.CollectInert
 import Txtpp.Lemmas.Hermetic
@@ -90,5 +91,14 @@ theorem after_dependency_nothing_runs {W : Type} (Wd : Txt.World W) (mode : Txt.
 theorem after_dependency_nothing_written {W : Type} (Wd : Txt.World W) (mode : Txt.Mode) (le : List Char)
     (s : Txt.PpState W) (l : List Char) (hc : Txt.isCollect s.pm = true) :
     (Txt.txtppSem Wd mode le).text s l = (s, none) := Txt.text_collect Wd mode le s l hc
+
+/-- **the same with results that depend on the file system** (what the real passes deliver; `FReach`, of
+which the concrete sequential run `runLoop` is an instance - `Lemmas/ConcreteCoord.lean`): when the final
+pass of a file is in flight, every dependency its first pass reported has already completed a pass that
+ended `ok` - its output is finished before the includer's final pass reads it -/
+theorem final_pass_after_dependencies_free_results (inputs : List File) (s : St) (hist : List (Task × Res))
+    (h : FReach inputs s hist) (a : File) (ha : Task.pp a false ∈ s.pool) (deps : List File)
+    (hd : (Task.pp a true, Res.hasDeps a deps) ∈ hist) : ∀ d ∈ deps, ∃ b, (Task.pp d b, Res.ok d) ∈ hist :=
+  freach_second_pass_after_deps inputs s hist h a ha deps hd
 
 end C02
